@@ -303,7 +303,7 @@ def h_chain(case, pick, st, stats):
             if rec["metas"]:
                 rec["problems"].append([rec["metas"][-1], "tojson raised: reading the result: %s" % (str(e).split("\n")[0][:200],)])
             break
-        if ty is None or "unknown" in ty or len(ty) > 3000:
+        if ty is None or "unknown" in ty or len(ty) > 1200:
             break                                    # (a union of dozens of record types, from zipping unions repeatedly, is beyond the int8 tags: the chain stops)
         try:
             ev = {"op": op, "v": trmod._tag(cur_list), "T": trmod.parse_type(ty)}
